@@ -102,6 +102,7 @@ class Interp:
         self.env = env
         self.exact = exact      # float literals as the Fractions they are (shadow run)
         self.saw_float = False
+        self.near_jump = False  # a discrete decision was taken on floats that nearly tie
         self.n_ops = 0
         self.reflected = False
 
@@ -197,8 +198,14 @@ class Interp:
                 if not isinstance(a, p.Expression):
                     raise ReceiverFolded()
                 return getattr(a, pr[1])(*([] if b is None else [b]))
+            fl = (float, np.floating)
             if pr[1] in CMP:
+                if (isinstance(a, fl) or isinstance(b, fl)) and _is_num(a) and _is_num(b) \
+                        and abs(a - b) <= 1e-9 * max(1.0, abs(a), abs(b)):
+                    self.near_jump = True      # a comparison of floats that nearly tie
                 return CMP[pr[1]](a, b)
+            if any(isinstance(x, fl) and abs(x) <= 1e-9 for x in (a, b)):
+                self.near_jump = True          # the truth of a float that is nearly zero
             if pr[1] == "not_":
                 return not a
             if pr[1] == "and_":
@@ -325,6 +332,11 @@ def symbolic_tree(res, prog):
     return tree, it
 
 
+def _is_num(x):
+    return isinstance(x, (int, float, Fraction, np.integer, np.floating)) \
+        and not isinstance(x, bool)
+
+
 def _has_float_literal(pr):
     if isinstance(pr, list):
         if len(pr) == 3 and pr[0] == "n" and "float" in str(pr[1]):
@@ -425,7 +437,7 @@ def compare_envs(res, prog, tree, env_specs, exact_mode=False):
             break
         if not agree(ref[1], v) and (
                 (isinstance(v, float) and _ill_conditioned(prog, env, v))
-                or (isinstance(v, (bool, int)) and plain.saw_float)):
+                or (isinstance(v, (bool, int)) and plain.saw_float and plain.near_jump)):
             # (a truth value / integer computed through inexact floats - a comparison, a
             # truth test, a floor - is decided by rounding noise once the operands cancel;
             # an irrational power makes even the rational shadow run inexact)
@@ -648,6 +660,23 @@ def all_cells():
         for lk, lp in KINDS.items():
             if lp[0] != "n":
                 cells.append({"prog": ["un", op, lp], "mode": "int", "cell": [op, lk]})
+    # constructor methods applied to results of constructor methods: every ordered pair of
+    # the logical ones, on either side, plus a comparison below a logical method
+    logical = ("and_", "or_")
+    for m1 in logical + ("not_",):
+        inner = ["meth", m1, V("x"), None if m1 == "not_" else V("y")]
+        for m2 in logical:
+            cells.append({"prog": ["meth", m2, inner, V("z")], "mode": "int",
+                          "cell": [m2, m1, "receiver"]})
+            cells.append({"prog": ["meth", m2, V("z"), inner], "mode": "int",
+                          "cell": [m2, m1, "argument"]})
+        cells.append({"prog": ["meth", "not_", inner, None], "mode": "int",
+                      "cell": ["not_", m1]})
+    for cmp_ in ("eq", "lt", "ge"):
+        inner = ["meth", cmp_, V("x"), V("y")]
+        for m2 in logical:
+            cells.append({"prog": ["meth", m2, inner, ["meth", cmp_, V("y"), V("z")]],
+                          "mode": "int", "cell": [m2, cmp_]})
     return cells
 
 # }}}
